@@ -772,10 +772,8 @@ fn check_valid_basic(doc: &Document, want: &[ObjectId], max_calls: &AtomicU64) -
 
 /// check_valid_basic plus every other form of the same enumeration.
 fn check_valid(doc: &Document, want: &[ObjectId], max_calls: &AtomicU64) -> Result<(), String> {
-    let t0 = std::time::Instant::now();
     check_valid_basic(doc, want, max_calls)?;
-    eprintln!("basic {:?}", t0.elapsed());
-    check_forms(doc, want, true, true, &|s| eprintln!("{} at {:?}", s, t0.elapsed()))
+    check_forms(doc, want, true, true, &|_| {})
 }
 
 /// Malformed tree, in process: the step-by-step run (termination, only page objects), then every other form.
@@ -1677,14 +1675,18 @@ const LEVELS_EXPECTED: &str = "a well-formed tree is enumerated completely howev
 /// Well-formed trees with more than 2^16 nodes below the root (and flat ones around 2^16 kids):
 /// built once per case from the generator parameters, which are all the replay stores.
 fn explore_levels(run: &Run, max_calls: &AtomicU64, watch: &Watch) {
-    let mut dims: Vec<Vec<usize>> = vec![vec![70_000], vec![65_535], vec![65_536], vec![65_537], vec![280, 250], vec![250, 280], vec![41, 41, 41], vec![2, 3, 5, 7, 11, 31]];
+    let mut dims: Vec<Vec<usize>> = vec![vec![70_000], vec![65_536], vec![65_537], vec![280, 250], vec![41, 41, 41], vec![2, 3, 5, 7, 11, 31]];
     if run.thorough {
-        dims.extend([vec![200_000], vec![131_073], vec![600, 400], vec![2, 70_000], vec![70_000, 1], vec![60, 60, 60], vec![17, 17, 17, 17], vec![4; 8]]);
+        dims.extend([vec![200_000], vec![131_073], vec![65_535], vec![600, 400], vec![250, 280], vec![2, 70_000], vec![70_000, 1], vec![60, 60, 60], vec![17, 17, 17, 17], vec![4; 8]]);
     }
     let mut work = vec![];
     for d in &dims {
         for indirect in [false, true] {
             for rev in [false, true] {
+                // quick: the two flat trees right at 2^16 kids only as (direct, ascending) and (indirect, reversed)
+                if !run.thorough && (d == &[65_536] || d == &[65_537]) && indirect != rev {
+                    continue;
+                }
                 work.push((d.clone(), indirect, rev));
             }
         }
@@ -3665,8 +3667,8 @@ fn main() {
          Wide trees: 255, 256, 257, 1000 (thorough: + 1023, 1024, 1025, 4096, 20000) kids under the root - all pages / sqrt(w) Pages nodes sharing w pages, \
          each followed by a page / pages alternating with empty Pages nodes - x Kids direct/indirect x ids ascending/reversed. \
          LEVEL TREES beyond 2^16 nodes (both tiers; built once from the generator parameters, which are all a replay stores): complete trees whose root holds d0 kids, every node of level i \
-         d_i kids, the last level pages - one node with 70,000 / 65,535 / 65,536 / 65,537 page kids; 280 x 250; 250 x 280; 41 x 41 x 41; 2 x 3 x 5 x 7 x 11 x 31 (thorough: + 200,000; 131,073; \
-         600 x 400; 2 x 70,000; 70,000 x 1; 60^3; 17^4; 4^8) x Kids direct/indirect x ids ascending/reversed - exact verdict through every form (size_hint() asked at every 4099th step), and \
+         d_i kids, the last level pages - one node with 70,000 / 65,536 / 65,537 page kids; 280 x 250; 41 x 41 x 41; 2 x 3 x 5 x 7 x 11 x 31 (thorough: + 200,000; 131,073; 65,535; \
+         600 x 400; 250 x 280; 2 x 70,000; 70,000 x 1; 60^3; 17^4; 4^8) x Kids direct/indirect x ids ascending/reversed (quick: 65,536 and 65,537 as direct+ascending and indirect+reversed only) - exact verdict through every form (size_hint() asked at every 4099th step), and \
          once more under max_id 0. SHARED OBJECT NUMBERS: every tree of the valid family x ids ascending/reversed once more under four numberings of the in-memory document in which objects \
          share an object NUMBER and differ in generation only - every object (catalog, root, Pages nodes, pages, Kids arrays) is (20, j); pairs (20+j/2, j%2) so that catalog and root / two \
          siblings / a Pages node and its page share a number; the other pairing (root and its first kid share a number); triples with generations 0, 1, 65535 - exact verdict by stepping and \
